@@ -85,6 +85,52 @@ def mech_jobs(r, n):
     return jobs
 
 
+def ext_jobs(r, n):
+    """beyond the listed properties: histories with Memento.forget_exceptions_recursively() over programs in which calls fail
+    (and are caught or not) at several levels"""
+    jobs = []
+    for i in range(n):
+        nfn = r.choice([2, 3, 3, 4])
+        p = progs.random_prog(r, nfn=nfn, features=("call", "call", "batch", "raise", "raise"))
+        ops = progs.random_ops(r, nfn, r.randint(6, 10), ctx=(i % 2 == 0), batch=True, fexc=0.3)
+        ops2 = []
+        for o in ops:
+            if o["op"] == "Call":
+                o["mod"] = "normal"
+            ops2.append(o)
+            if o["op"] == "Call" and r.random() < 0.6:       # right after a call (it may have failed): forget its failures, call again
+                ops2.append({"op": "ForgetExc", "f": o["f"], "a": o["a"], "c": o["c"]})
+                if r.random() < 0.5:
+                    ops2.append(dict(o))
+        jobs.append({"prog": p, "cfg": dict(BACKENDS[i % len(BACKENDS)]), "ops": ops2, "amax": 2})
+    return jobs
+
+
+def validate_ext(rep, jobs, traces, wd):
+    payload = [{"cfg": {"prog": t["cfg"]["prog"], "prop": "EXT", "store": "real", "runner": "local"}, "ev": t["ev"]} for t in traces]
+    rej, vr = tlc.validate_traces("TraceRunner", payload, wd, timeout=2400)
+    rep.add_tlc(vr, "trace validation TraceRunner (forget_exceptions_recursively, beyond the listed properties)")
+    rep.cov["ext_histories"] = len(payload)
+    rep.cov["ext_forget_exceptions_events"] = sum(1 for t in traces for e in t["ev"] if e["op"] == "ForgetExc")
+    eff = 0
+    for t in traces:
+        prev = 0
+        for e in t["ev"]:
+            if e["op"] == "ForgetExc" and len(e.get("mem", [])) < prev:
+                eff += 1
+            prev = len(e.get("mem", []))
+    rep.cov["ext_forget_exceptions_events_that_forgot_something"] = eff
+    rep.cov["ext_nonconformances"] = len(rej)
+    if rej:
+        print("NONCONFORMANCE: %d of %d histories with forget_exceptions_recursively() diverge from ProgSem.ExcClosure (informational)"
+              % (len(rej), len(payload)))
+        for rj in rej[:3]:
+            t = traces[rj["tid"] - 1]
+            e = t["ev"][rj["prefix"]] if rj["prefix"] < len(t["ev"]) else {}
+            print("  why=%s op=%s f=%s a=%s c=%s exc=%s" % (sorted(rj["why"]), e.get("op"), e.get("f"), e.get("a"), e.get("c"), e.get("exc", "")[:100]))
+        rep.cov["nonconformances"] = rep.cov.get("nonconformances", 0) + len(rej)
+
+
 def validate_mech(rep, jobs, traces, wd):
     payload = [{"cfg": {"prog": t["cfg"]["prog"]}, "ev": [e for ev in t["ev"] for e in ev.get("mech", [])]} for t in traces]
     rej, vr = tlc.validate_traces("TraceRunnerMech", payload, wd, timeout=2400)
@@ -173,6 +219,10 @@ def run(prop, tier):
             mj = mech_jobs(r, 60 if quick else 600)
             mt = common.run_jobs("runner_worker.py", mj, wd, timeout=2400)
             validate_mech(rep, mj, mt, wd)
+        if prop == "C10":
+            xj = ext_jobs(r, 40 if quick else 500)
+            xt = common.run_jobs("runner_worker.py", xj, wd, timeout=2400)
+            validate_ext(rep, xj, xt, wd)
         if prop == "C02":
             run_values(rep, r, wd, quick)
         rep.assumptions += ["the reference semantics ProgSem.tla is the definition of 'what the program does'; generated bodies "
